@@ -1323,7 +1323,7 @@ fn main() {
             // at the cap: +1 atomic must fail, lowering must pass
             at += DAY;
             let b1 = roy_upd(&mut ses, &mut sut, at, 10, 11, cur + 1);
-            let b2 = roy_upd(&mut ses, &mut sut, at, 10, 11, cur - 1);
+            let b2 = roy_upd(&mut ses, &mut sut, at, 10, 11, cur.saturating_sub(1));
             ses.mark(format!("climb-end:{k}:{}{}", o1(&b1), o1(&b2)));
             ses.end_case();
         }
